@@ -79,22 +79,24 @@ func (r *runner) genHistory(stub bool) *history {
 		a := regular()
 		a1 := regular()
 		a2 := (a1 + 1 + rng.Intn(4)) % 5
+		b1 := regular()
 		script = []sop{
 			{op: opRec{Kind: "init", A: a}},
 			{op: opRec{Kind: "funcs", A: a, Role: 0, Fns: []int{0, 1}}},
 			{op: opRec{Kind: "funcs", A: a, Role: 1, Fns: []int{2}}},
 			{op: opRec{Kind: "ids", A: a, Role: 0, Persons: []int{a1, a2}}},
-			{op: opRec{Kind: "ids", A: a, Role: 1, Persons: []int{regular()}}},
+			{op: opRec{Kind: "ids", A: a, Role: 1, Persons: []int{b1}}},
 		}
+		ex := func(adv uint64, o opRec) sop { return sop{op: o, adv: adv, exact: true} }
 		// several delegators, one delegate: a1 delegates r0 to cc, the delegation runs out
 		// un-withdrawn, a2 delegates r0 to cc, then the two delegators withdraw in some order
-		if rng.Intn(2) == 0 {
+		switch sel := rng.Intn(4); {
+		case sel < 2:
 			cc := regular()
 			for cc == a1 || cc == a2 {
 				cc = regular()
 			}
 			p := uint64(3 + rng.Intn(18))
-			ex := func(adv uint64, o opRec) sop { return sop{op: o, adv: adv, exact: true} }
 			del := func(adv uint64, from int, period uint64) sop {
 				return ex(adv, opRec{Kind: "delegate", A: from, B: cc, Role: 0, Period: period, Level: 1})
 			}
@@ -111,6 +113,30 @@ func (r *runner) genHistory(stub bool) *history {
 			default:
 				script = append(script, wd(1, a2), del(1, a1, 25), vf(1), wd(1, a2), vf(1), wd(1, a1), vf(1))
 			}
+		case sel == 2:
+			// a holder of r0 delegates it to cc, who has no token record at all; while the delegation
+			// runs the admin assigns r0 to cc (the token is stored: an identity without a record
+			// always receives it); the delegation is withdrawn or runs out: cc keeps r0
+			cc := regular()
+			for cc == a1 || cc == a2 || cc == b1 {
+				cc = regular()
+			}
+			p := uint64(2 + rng.Intn(20))
+			from := []int{a1, a2}[rng.Intn(2)]
+			vf := func(adv uint64) sop { return ex(adv, opRec{Kind: "verify", A: cc, Fn: rng.Intn(2)}) }
+			script = append(script, ex(1, opRec{Kind: "delegate", A: from, B: cc, Role: 0, Period: p, Level: 1}))
+			persons := [][]int{{cc}, {cc}, {cc, cc}, {a1, cc}, {cc, b1}}[rng.Intn(5)]
+			// at a second in [start, expiry-1]
+			script = append(script, ex(uint64(rng.Intn(int(p))), opRec{Kind: "ids", A: a, Role: 0, Persons: persons}), vf(0))
+			switch rng.Intn(3) {
+			case 0:
+				script = append(script, ex(uint64(rng.Intn(2)), opRec{Kind: "withdraw", A: from, B: cc, Role: 0}), vf(uint64(rng.Intn(2))))
+			case 1:
+				script = append(script, vf(p), vf(1))
+			default:
+				script = append(script, vf(p+1), ex(1, opRec{Kind: "withdraw", A: from, B: cc, Role: 0}), vf(1))
+			}
+			c.Count("history:opening:assign-no-record-during-delegation")
 		}
 		if n < len(script)+6 {
 			n = len(script) + 6
